@@ -29,6 +29,15 @@ structure SimpleClass (env : Env) (d : ClassDef) : Prop where
   nodup : (d.params.map (·.name)).Nodup
   args : ∀ prm ∈ d.params, d.argNames.contains prm.name = true ∧ prm.name ≠ "_yatiml_extra" ∧ prm.name ≠ "self"
 
+/-- a registered enum / string-like class without hooks, registered bases or registered subclasses -/
+structure SimpleLeafClass (env : Env) (d : ClassDef) : Prop where
+  found : env.find d.name = some d
+  recog : d.recognize = none
+  sav : d.savorize = none
+  noBases : d.bases.filterMap (fun b => env.find b) = []
+  concrete : d.abstract = false
+  noSub : env.directSubclasses d.name = []
+
 /-- `Optional[T]`, as `typing` normalises it: `Union[T, None]` -/
 def optTy (T : Ty) : Ty := .union (.cons T (.cons .null .nil))
 
@@ -40,6 +49,11 @@ inductive NonNullTy (env : Env) : Ty → Prop
   | seq (k : SeqKind) (item : Ty) : NonNullTy env (.seq k item)
   | map (k : MapKind) (V : Ty) : NonNullTy env (.map k .str V)
   | cls (d : ClassDef) : SimpleClass env d → NonNullTy env (.cls d.name)
+  | float : NonNullTy env .float
+  | path : NonNullTy env .path
+  | enumCls (d : ClassDef) (members : List String) : SimpleLeafClass env d → d.kind = .enum members →
+      NonNullTy env (.cls d.name)
+  | strCls (d : ClassDef) : SimpleLeafClass env d → d.kind = .stringLike → NonNullTy env (.cls d.name)
 
 /-- values of a type: plain data as in `HasTy`, objects of simple classes carrying one value of the
 declared type per constructor parameter, in declaration order, that the constructor accepted, and
@@ -59,6 +73,13 @@ inductive HasTyE (env : Env) : Ty → PyVal → Prop
       (∀ e ∈ kw.toList, ∀ prm ∈ d.params, e.1 = strKey prm.name → HasTyE env prm.ty e.2) →
       d.initRaises (scalarArgs kw.toList) = false →
       HasTyE env (.cls d.name) (.obj d.name kw)
+  | float (r : String) (i : Option Int) : env.ext.yamlFloat (floatText r) = some (r, i) →
+      HasTyE env .float (.scalar (.float r i))
+  | path (s : String) : env.find "Path" = none → HasTyE env .path (.path s)
+  | enum (d : ClassDef) (members : List String) (name : String) : SimpleLeafClass env d →
+      d.kind = .enum members → members.contains name = true → HasTyE env (.cls d.name) (.enumMember d.name name)
+  | ustr (d : ClassDef) (t : String) : SimpleLeafClass env d → d.kind = .stringLike →
+      d.initRaises [("", .str t)] = false → HasTyE env (.cls d.name) (.userStr d.name t)
   | optNone (T : Ty) : NonNullTy env T → HasTyE env (optTy T) (.scalar .none)
   | optSome (T : Ty) (v : PyVal) : NonNullTy env T → HasTyE env T v → HasTyE env (optTy T) v
 
@@ -148,6 +169,10 @@ theorem hasTyE_typeMatches_core (env : Env) (n : Nat)
     exact typeMatchesKVs_of env V kvs hk (fun e hem =>
       ih V e.2 (by have := needK_mem kvs e hem; omega) (hv e hem))
   | obj d kw _ _ _ _ => simp [typeMatches, isInstanceOf]
+  | float r i _ => simp [typeMatches]
+  | path t _ => simp [typeMatches]
+  | enum d members name _ _ _ => simp [typeMatches, isInstanceOf]
+  | ustr d t _ _ _ => simp [typeMatches, isInstanceOf]
   | optNone T _ => exact absurd rfl (hno T)
   | optSome T v _ _ => exact absurd rfl (hno T)
 
@@ -171,6 +196,14 @@ theorem hasTyE_typeMatches (env : Env) : ∀ (n : Nat) (T : Ty) (v : PyVal), nee
       exact hasTyE_typeMatches_core env n ih _ _ hn (HasTyE.map k V kvs hk hv hko) (by intro T' e; simp [optTy] at e)
     | obj d kw hS h1 h2 h3 =>
       exact hasTyE_typeMatches_core env n ih _ _ hn (HasTyE.obj d kw hS h1 h2 h3) (by intro T' e; simp [optTy] at e)
+    | float r i h1 =>
+      exact hasTyE_typeMatches_core env n ih _ _ hn (HasTyE.float r i h1) (by intro T' e; simp [optTy] at e)
+    | path t h1 =>
+      exact hasTyE_typeMatches_core env n ih _ _ hn (HasTyE.path t h1) (by intro T' e; simp [optTy] at e)
+    | enum d members name h1 h2 h3 =>
+      exact hasTyE_typeMatches_core env n ih _ _ hn (HasTyE.enum d members name h1 h2 h3) (by intro T' e; simp [optTy] at e)
+    | ustr d t h1 h2 h3 =>
+      exact hasTyE_typeMatches_core env n ih _ _ hn (HasTyE.ustr d t h1 h2 h3) (by intro T' e; simp [optTy] at e)
 
 /-! ### recognising the node of a simple object -/
 
@@ -207,6 +240,21 @@ theorem recognize_simple_obj (env : Env) (d : ClassDef) (S : SimpleClass env d) 
     BEq.rfl, S.concrete, Bool.false_eq_true, if_false, recUserClass, S.recog, S.kind,
     Pairs.toList_ofList, hattrs, recOk, finishClasses, List.length_singleton, Node.tag, tMap_yaml]
   simp
+
+theorem tStr_yaml : hasPrefix "tag:yaml.org,2002" tStr = true := by decide
+
+/-- recognising the scalar of an enum member / a string-like as its (simple) class -/
+theorem recognize_leaf_class (env : Env) (d : ClassDef) (S : SimpleLeafClass env d)
+    (hk : (∃ members, d.kind = .enum members) ∨ d.kind = .stringLike) (b : Nat) (t : String) (m : Mark) :
+    recognize env (b + 2) (.scalar tStr t m) (.cls d.name) = .ok ([.cls d.name], [okLeaf]) := by
+  have hreg := find_isRegistered env d.name d S.found
+  rcases hk with ⟨members, hk⟩ | hk <;>
+    simp [recognize, recognizeReq, hreg, S.found, S.noSub, recSubclasses, S.concrete, recUserClass, S.recog, hk,
+      recOk, finishClasses, Node.tag, tStr_yaml]
+
+theorem savorize_leaf (env : Env) (d : ClassDef) (S : SimpleLeafClass env d) (f : Nat) (n : Node) :
+    savorize env (f + 1) n d = .ok (n, []) := by
+  simp [savorize, S.noBases, S.sav]
 
 /-! ### the represented node of a simple object describes it -/
 
@@ -289,6 +337,36 @@ theorem desc_core (env : Env) (denv : DumpEnv) (tbl : List Entry) (hns : C07.NoS
   cases ht with
   | optNone T _ => exact absurd rfl (hno T)
   | optSome T v _ _ => exact absurd rfl (hno T)
+  | float r i hfl =>
+    simp only [represent, representScalar] at h; cases h
+    exact ⟨[okLeaf], by simp [recognize, recognizeReq, recScalar, recOk], f, rfl, RTcore.float r i _ _ hfl⟩
+  | path t hp =>
+    simp only [represent] at h; cases h
+    exact ⟨[okLeaf], by simp [recognize, recognizeReq, recScalar, recOk], f, rfl, RTcore.path t _ hp⟩
+  | enum d members name S hk hmem =>
+    simp only [represent] at h
+    split at h
+    · cases h
+    · rename_i dd hdd
+      rw [(hns dd (C07.find_mem denv d.name dd hdd)).2] at h
+      simp only at h
+      cases h
+      simp only [need] at hf
+      obtain ⟨b, rfl⟩ : ∃ b, f = b + 1 := ⟨f - 1, by omega⟩
+      exact ⟨[okLeaf], recognize_leaf_class env d S (Or.inl ⟨members, hk⟩) b name gen, b + 1, rfl,
+        RTcore.enum d.name name gen d members S.found hk hmem (savorize_leaf env d S _ _)⟩
+  | ustr d t S hk hinit =>
+    simp only [represent] at h
+    split at h
+    · cases h
+    · rename_i dd hdd
+      rw [(hns dd (C07.find_mem denv d.name dd hdd)).2] at h
+      simp only at h
+      cases h
+      simp only [need] at hf
+      obtain ⟨b, rfl⟩ : ∃ b, f = b + 1 := ⟨f - 1, by omega⟩
+      exact ⟨[okLeaf], recognize_leaf_class env d S (Or.inr hk) b t gen, b + 1, rfl,
+        RTcore.userStr d.name t gen d S.found hk hinit (savorize_leaf env d S _ _)⟩
   | str s =>
     simp only [represent, representScalar] at h; cases h
     exact ⟨[okLeaf], by simp [recognize, recognizeReq, recScalar, recOk], f, rfl, RTcore.str s _⟩
@@ -465,6 +543,8 @@ theorem recUnion_opt (rec : Node → Ty → RecRes) (n : Node) (T R : Ty) (l1 l2
 theorem tNull_ne_str : (tNull == tStr) = false := by decide
 theorem tNull_ne_int : (tNull == tInt) = false := by decide
 theorem tNull_ne_bool : (tNull == tBool) = false := by decide
+theorem tNull_ne_float : (tNull == tFloat) = false := by decide
+theorem tFloat_ne_null : (tFloat == tNull) = false := by decide
 theorem tStr_ne_null : (tStr == tNull) = false := by decide
 theorem tInt_ne_null : (tInt == tNull) = false := by decide
 theorem tBool_ne_null : (tBool == tNull) = false := by decide
@@ -485,6 +565,20 @@ theorem reject_null (env : Env) (T : Ty) (hnn : NonNullTy env T) (b : Nat) (s : 
       S.concrete, Bool.false_eq_true, if_false, recUserClass, S.recog, S.kind, recFail, finishClasses,
       List.nil_append]
     exact ⟨_, rfl⟩
+  | float => simp only [recognizeReq, recScalar, tNull_ne_float, Bool.false_eq_true, if_false, recFail]; exact ⟨_, rfl⟩
+  | path => simp only [recognizeReq, recScalar, tNull_ne_str, Bool.false_eq_true, if_false, recFail]; exact ⟨_, rfl⟩
+  | enumCls d members S hk =>
+    have hreg := find_isRegistered env d.name d S.found
+    simp only [recognizeReq, hreg, if_true, S.found, S.noSub, recSubclasses, List.length_nil, BEq.rfl,
+      S.concrete, Bool.false_eq_true, if_false, recUserClass, S.recog, hk, tNull_ne_str, tNull_ne_bool,
+      Bool.or_self, recFail, finishClasses, List.nil_append]
+    exact ⟨_, rfl⟩
+  | strCls d S hk =>
+    have hreg := find_isRegistered env d.name d S.found
+    simp only [recognizeReq, hreg, if_true, S.found, S.noSub, recSubclasses, List.length_nil, BEq.rfl,
+      S.concrete, Bool.false_eq_true, if_false, recUserClass, S.recog, hk, tNull_ne_str,
+      recFail, finishClasses, List.nil_append]
+    exact ⟨_, rfl⟩
 
 /-- a node that describes a value of a type other than `None` is not recognised as `None` -/
 theorem null_rejects (env : Env) (tbl : List Entry) (f : Nat) (rt : Ty → PyVal → Node → Prop)
@@ -501,11 +595,13 @@ theorem null_rejects (env : Env) (tbl : List Entry) (f : Nat) (rt : Ty → PyVal
   | userStr c s m d _ _ _ _ =>
     simp only [recognizeReq, recScalar, tStr_ne_null, Bool.false_eq_true, if_false, recFail]; exact ⟨_, rfl⟩
   | obj c kw ps m d _ _ _ _ _ _ _ => simp only [recognizeReq, recScalar, recFail]; exact ⟨_, rfl⟩
-  | float _ _ _ _ _ => cases hnn
+  | float _ _ _ _ _ =>
+    simp only [recognizeReq, recScalar, tFloat_ne_null, Bool.false_eq_true, if_false, recFail]; exact ⟨_, rfl⟩
   | boolFix _ _ _ _ => cases hnn
   | null _ _ => cases hnn
   | date _ _ _ _ => cases hnn
-  | path _ _ _ => cases hnn
+  | path _ _ _ =>
+    simp only [recognizeReq, recScalar, tStr_ne_null, Bool.false_eq_true, if_false, recFail]; exact ⟨_, rfl⟩
   | any _ _ _ _ => cases hnn
 
 theorem nonNull_value (env : Env) (T : Ty) (v : PyVal) (hnn : NonNullTy env T) (h : HasTyE env T v) :
@@ -543,6 +639,10 @@ theorem simple_described (env : Env) (denv : DumpEnv) (tbl : List Entry) (hns : 
     | seq k item xs hx => exact plain (by intro T' e; simp [optTy] at e)
     | map k V kvs hk hv hko => exact plain (by intro T' e; simp [optTy] at e)
     | obj d kw hS h1 h2 h3 => exact plain (by intro T' e; simp [optTy] at e)
+    | float r i h1 => exact plain (by intro T' e; simp [optTy] at e)
+    | path t h1 => exact plain (by intro T' e; simp [optTy] at e)
+    | enum d members name h1 h2 h3 => exact plain (by intro T' e; simp [optTy] at e)
+    | ustr d t h1 h2 h3 => exact plain (by intro T' e; simp [optTy] at e)
     | optNone T hnn =>
       simp only [represent, representScalar] at h; cases h
       simp only [need] at hf
@@ -580,8 +680,10 @@ namespace YatimlModel.C05
 open YatimlModel
 
 /-- **Round trip for simple objects (node level), closed form.**  For every class model, resolver table
-and value made of plain data, objects of *simple* classes (plain, no hooks, no `_yatiml_extra`, no
-registered bases or subclasses, not abstract) and `Optional[...]` positions, nested to any depth: if the dump side has no
+and value made of plain data (strings, integers, booleans, `None`, floats whose `repr` CPython's
+`float()` reads back, paths, lists, string-keyed dicts), members of enums and string-likes without hooks,
+objects of *simple* classes (plain, no hooks, no `_yatiml_extra`, no registered bases or subclasses, not
+abstract) and `Optional[...]` positions, nested to any depth: if the dump side has no
 `_yatiml_sweeten` hooks, the node tree the representers build loads back — with enough fuel for the
 depth of the value — as exactly that value: same classes, equal attribute values, same list and mapping
 order.  No precondition about recognition: its uniqueness at every node is derived. -/
